@@ -62,9 +62,12 @@ func keyForPrefixedStringMapsAsKey(buf []byte, prefix string, maps ...map[string
 		buf = append(buf, prefixSplitter)
 	}
 
-	var lastKey string // last key written to the buffer
+	var (
+		lastKey string // last key written to the buffer
+		written bool   // whether any key has been written (the empty string is a valid key)
+	)
 	for _, k := range keys {
-		if len(lastKey) > 0 {
+		if written {
 			if k == lastKey {
 				// Already wrote this key.
 				continue
@@ -72,6 +75,7 @@ func keyForPrefixedStringMapsAsKey(buf []byte, prefix string, maps ...map[string
 			buf = append(buf, keyPairSplitter)
 		}
 		lastKey = k
+		written = true
 
 		buf = append(buf, k...)
 		buf = append(buf, keyNameSplitter)
